@@ -1,5 +1,7 @@
 import TTV.Model.Deferred
 import TTV.Spec.C20
+import TTV.Lemmas.DeferredSkel
+import TTV.Generated.DeferredSrc
 /-! # C20 — Deferred matchers classify fired/failed/unfired without firing anything
 
 Property theorems (kept apart from the model `TTV/Model/Deferred.lean`).  All statements are for **every** state of
@@ -393,5 +395,48 @@ example : model (.history [.matchD (.succeeded .always), .add ⟨.keep, .keep, .
       .matchD (.succeeded (.equals (.num 5)))]) =
     .history [.verdict false false false, .added, .fired false, .verdict true true true] [(0, .ok (.num 5))] true false := by
   decide
+
+/-! ## tie to the source
+`TTV.Generated.DeferredSrc` is produced by `harness/pydeferred2lean.py` from `testtools/twistedsupport/_deferred.py`,
+`_matchers.py` and `_runtest.py` on every run: the arms of `on_deferred_result`, the handlers each matcher passes to it (and
+which of them swallow the failure with `addErrback`), the arms of `extract_result`, the steps of `_run_user`.
+`TTV.DeferredSkel.matchI / extractI / runUserI` interpret that data over the model. -/
+
+/-- the model's `has_no_result()` is the interpretation of `_NoResult.match` + `on_deferred_result` as found in the source -/
+theorem C20_src_no_result (d : D) :
+    DeferredSkel.matchI Generated.DeferredSrc.onDeferredResult Generated.DeferredSrc.noResult (fun _ => false) d
+      = some (matchOp .noResult d) := by
+  have e1 : Generated.DeferredSrc.onDeferredResult = DeferredSkel.refOdr := by decide
+  have e2 : Generated.DeferredSrc.noResult = DeferredSkel.refNoResult := by decide
+  rw [e1, e2]; exact DeferredSkel.matchI_ref_noResult d
+
+/-- the model's `succeeded(m)` is the interpretation of `_Succeeded.match`, its handlers and `on_deferred_result` as found
+in the source — for every Deferred state and inner matcher -/
+theorem C20_src_succeeded (vm : VM) (d : D) :
+    DeferredSkel.matchI Generated.DeferredSrc.onDeferredResult Generated.DeferredSrc.succeeded (DeferredSkel.innerV vm) d
+      = some (matchOp (.succeeded vm) d) := by
+  have e1 : Generated.DeferredSrc.onDeferredResult = DeferredSkel.refOdr := by decide
+  have e2 : Generated.DeferredSrc.succeeded = DeferredSkel.refSucceeded := by decide
+  rw [e1, e2]; exact DeferredSkel.matchI_ref_succeeded vm d
+
+/-- the model's `failed(m)` is the interpretation of `_Failed.match`, its handlers and `on_deferred_result` as found in
+the source -/
+theorem C20_src_failed (fm : FM) (d : D) :
+    DeferredSkel.matchI Generated.DeferredSrc.onDeferredResult Generated.DeferredSrc.failed (DeferredSkel.innerF fm) d
+      = some (matchOp (.failed fm) d) := by
+  have e1 : Generated.DeferredSrc.onDeferredResult = DeferredSkel.refOdr := by decide
+  have e2 : Generated.DeferredSrc.failed = DeferredSkel.refFailed := by decide
+  rw [e1, e2]; exact DeferredSkel.matchI_ref_failed fm d
+
+/-- the model's `extract_result` is the interpretation of the arms found in the source -/
+theorem C20_src_extract (d : D) :
+    DeferredSkel.extractI Generated.DeferredSrc.extractResult d = some (extractOp d) := by
+  have e : Generated.DeferredSrc.extractResult = DeferredSkel.refExtract := by decide
+  rw [e]; exact DeferredSkel.extractI_ref d
+
+/-- `SynchronousDeferredRunTest._run_user` is `maybeDeferred`, `addErrback(self._got_user_failure)`, `extract_result` -/
+theorem C20_src_run_user (b : Beh) : DeferredSkel.runUserI Generated.DeferredSrc.runUser b = some (runUser b) := by
+  have e : Generated.DeferredSrc.runUser = DeferredSkel.refRunUser := by decide
+  rw [e]; exact DeferredSkel.runUserI_ref b
 
 end TTV.Props.C20
